@@ -67,7 +67,8 @@ Verdict_decode2(e) ==
         c04 == /\ o.again_same
                /\ (o.ok => o.status = 0 /\ o.clone_eq)
                /\ (~o.ok => o.status \in ThreeCodes)
-        bind == [ok |-> o.ok, status |-> o.status, cmd |-> o.cmd, v |-> o.v, code |-> o.code] = req
+        bind == /\ o.ok = req.ok /\ o.status = req.status /\ o.cmd = req.cmd /\ o.code = req.code
+                /\ (o.ok /\ req.ok => o.v = req.v)
         \* status-only agreement for inputs whose value is not the point (byte-level mutations)
         c05 == IF m.ok THEN TRUE                      \* accepted by the model: not a C05 matter
                ELSE ~o.ok /\ o.status = m.status       \* must be rejected, with the status the fault calls for
@@ -87,7 +88,8 @@ Verdict_decode_type(e) ==
         r  == Dec(TypeByName(e.in.type), e.in.bytes, 1, F)
         unspec == ~r.ok /\ r.e = "unspec"
         ps == Props(e)
-        bind == [ok |-> o.ok, err |-> o.err, v |-> o.v] = req
+        \* (values are compared only when both sides have one: an integer and "no value" do not compare)
+        bind == o.ok = req.ok /\ o.err = req.err /\ (o.ok /\ req.ok => o.v = req.v)
         \* re-encoding what was decoded: the model's encoding of the model's value
         reencOk == ~r.ok \/ o.reenc = << >> \/ ~o.ok
                    \/ o.reenc[1] = EncTy(TypeByName(e.in.type), r.v, F)
